@@ -460,6 +460,13 @@ func fetchDocWithIDAndItsSubDocs(node planNode, docID string) (immutable.Option[
 
 	prefixes := []keys.Walkable{dsKey}
 
+	// A lookup by docID is a private use of the scan. If the node is a multiScanNode we need to get
+	// the source node: the multiScanNode only forwards every n-th call, assuming that all its
+	// readers call it in turn, and a join may need to look up more than one document per round.
+	if multiScan, ok := node.(*multiScanNode); ok {
+		node = multiScan.Source()
+	}
+
 	node.Prefixes(prefixes)
 
 	if err := node.Init(); err != nil {
